@@ -171,6 +171,10 @@ def selfcheck(results, rng, reps=3, rtol=1e-10):
           ienv = dict(zip(ixs, pos))
           got = ir.evaluate(t.node, env, ienv, sizes)
           want = float(exp[pos])
+          if not (numpy.isfinite(got) and numpy.isfinite(want)):   # a NaN / inf on either side is never "close"
+            if got == want:
+              continue
+            raise TranslationError(f"translator self-check failed for {name} at {pos}: IR gives {got!r}, the code gives {want!r}")
           err = abs(got - want) / max(1e-300, max(1.0, abs(want)) if abs(want) > 1e-200 else 1.0)
           if abs(want) > 1e-200:
             err = abs(got - want) / max(abs(want), 1e-12)
